@@ -46,7 +46,10 @@ def write_key(text, sep, style=0, first=False):
 
 def write_operand(text, sep, style=0):
     specials = set(_OPERAND_SPECIALS)
-    return _esc(text, specials, style)
+    out = _esc(text, specials, style)
+    if out and out[0] == "&":
+        out = "\\" + out       # a leading & would read as an anchor mark
+    return out
 
 
 def write_segment(seg, sep, style=0):
@@ -67,7 +70,9 @@ def write_segment(seg, sep, style=0):
         return "**", True
     if kind == "search":
         _, inv, method, attr, term = seg
-        attr_t = attr if attr == "." else write_operand(attr, sep, style)
+        # only the term may be demarcated with quotes (README example);
+        # the attribute is always backslash-escaped
+        attr_t = attr if attr == "." else write_operand(attr, sep, 0)
         if method == "REGEX":
             delim = next(d for d in REGEX_DELIMS if d not in term)
             term_t = delim + term + delim
@@ -103,6 +108,19 @@ def write_path(segs, sep=".", style=0):
 
 
 # -- reading yamlpath's parse back into the AST ------------------------------
+def from_path(path):
+    """AST of a parsed YAMLPath.  Collector expressions are taken from the
+    unescaped parse - that is the form the processor evaluates, the escaped
+    parse has already consumed their backslashes."""
+    esc = list(path.escaped)
+    une = list(path.unescaped)
+    out = from_parsed(esc)
+    for i, seg in enumerate(out):
+        if seg[0] == "collector" and i < len(une):
+            out[i] = from_parsed([une[i]])[0]
+    return out
+
+
 def from_parsed(segments):
     """Convert YAMLPath(...).escaped into AST segments."""
     from yamlpath.enums import PathSegmentTypes as T
